@@ -148,6 +148,7 @@ ADDED3 = {
     'C03': ' Later: STALE-CURSOR in the C gateways (a pointer computed from struct fields is not used after the memmove/compaction that updates those fields).',
     'C08': ' Later: PY-EFFECT (the bytes the Python Message.Flatten() writes per field equal what FlattenedSize()/GetFieldContentsLength() compute, for every type-code branch, contents representation and byte order, with strings counted in encoded bytes; found and fixed two disagreements that made the C++ parser reject Python-written Messages).',
     'C16': ' Later: QUEUE-SELF (a method that moves the items of *this while reading its const Queue & argument by index runs only where &argument != this was tested alone; found and fixed q.AddHeadMulti(q)).',
+    'C14': ' Later: R-REC over the expression parser and the archive factory (every recursive cycle reachable from CreateQueryFilterFromExpression / CreateQueryFilter carries a depth guard, a decremented depth argument, a single-shot NULL argument, or belongs to the Message-nesting family; found and fixed the unbounded recursion on nested parentheses).',
     'C13': ' Later: INDEX-OBSERVERS covers every call that adds an index entry (InsertOrderedChild, ReorderChild, InsertIndexEntryAt): the owner session is flagged as having indexing present (found and fixed: REORDERDATA and CloneDataNodeSubtree did not).',
 }
 for _k, _v in ADDED3.items():
